@@ -31,7 +31,7 @@ ID = "C08"
 LEVEL = "exploration"
 VERSION = 1
 RULE = (
-    "one case = 1..4 clients x (corpus project, configuration variant: plain / programs / budget+stop / coverage+capacity overwrite / y-factors+dt / parameter scenario / saved initial state reused in a recalibrated parameter set) x "
+    "one case = 1..4 clients x (corpus project, configuration variant: plain / programs / budget+stop / coverage+capacity overwrite / y-factors+dt / parameter scenario (overwrites of a parameter, a transfer and an interaction) / saved initial state reused in a recalibrated parameter set) x "
     "operation template (repeat run, build->process, deepcopy / pickle / sc.dcp then process copy and/or original, Result save/load, Project save/load, Scenario.run), interleaved by the tape at "
     "operation and integration-stage granularity with seeded disturbances (RNG reseed/advance, logger level, np.seterr, gc, unrelated sampled run); distinct = distinct (client configs, templates, baton schedule) hashes; "
     "non-trivial = at least one context switch happened inside an integration, or a copied model was processed"
